@@ -1,3 +1,130 @@
 import Driver.Common
-/-! Driver for property C20 (stub: the model for this property is not built yet). -/
-def main : IO Unit := Driver.run (fun (s : Unit) _ => (s, "unimplemented")) ()
+import TxdbusModel.Proto.Fds
+/-!
+Driver for property C20 (file descriptors stay attached to the message that carried them).
+
+    S <hasSig 0|1> <oob0> <tree>
+        sender: `_marshal` + `sendMessage` of a body given as a tree
+          tree  ::=  h<nat>  |  p  |  [ tree* ]      (tokens separated by spaces; the body is the
+                                                      top-level sequence of trees)
+          oob0  ::=  comma separated naturals, "-" for the empty list
+        output: `hdr=<n|-> idx=<list> oob=<list> send=<f<n> ... W>`
+
+    V <n> (<rawhex> <declared|-> <idxlist|->){n} E <ev>*
+        receiver in binary mode, fresh queue; the table is the abstract parser `info`
+        (raw message -> declared unix_fds, indices of its `h` arguments); unknown raw: (-, -)
+          ev ::= f<nat> | r<hex>
+        output: one `D <rawhex> a=<args> b=<queue before> q=<queue after>` per delivery, then
+                `| <buffer hex> <queue>`
+-/
+open Txdbus.Proto
+
+namespace DrvC20
+
+def parseNat? (s : String) : Option Nat := s.toNat?
+
+def parseNatList (s : String) : Option (List Nat) :=
+  if s == "-" then some [] else (s.splitOn ",").mapM parseNat?
+
+def showNatList (l : List Nat) : String :=
+  if l.isEmpty then "-" else ",".intercalate (l.map toString)
+
+def showOptList (l : List (Option Nat)) : String :=
+  if l.isEmpty then "-" else ",".intercalate (l.map fun o => match o with | some n => toString n | none => "None")
+
+/-- Parse a sequence of trees up to the closing bracket (or the end at depth 0).  Fuel = token count. -/
+def parseTrees : Nat → List String → Option (List BV × List String)
+  | 0, _ => none
+  | _ + 1, [] => some ([], [])
+  | fuel + 1, tok :: rest =>
+    if tok == "]" then some ([], tok :: rest)
+    else if tok == "[" then
+      match parseTrees fuel rest with
+      | some (items, "]" :: rest') =>
+        match parseTrees fuel rest' with
+        | some (more, rest'') => some (BV.seq items :: more, rest'')
+        | none => none
+      | _ => none
+    else if tok == "p" then
+      match parseTrees fuel rest with
+      | some (more, rest') => some (BV.plain :: more, rest')
+      | none => none
+    else if tok.startsWith "h" then
+      match (tok.drop 1).toString.toNat?, parseTrees fuel rest with
+      | some n, some (more, rest') => some (BV.fd n :: more, rest')
+      | _, _ => none
+    else none
+
+def hexVal (c : Char) : Option Nat :=
+  if '0' ≤ c ∧ c ≤ '9' then some (c.toNat - 48)
+  else if 'a' ≤ c ∧ c ≤ 'f' then some (c.toNat - 87)
+  else none
+
+def parseHexGo : List Char → List UInt8 → Option (List UInt8)
+  | [], acc => some acc.reverse
+  | [_], _ => none
+  | a :: b :: t, acc =>
+    match hexVal a, hexVal b with
+    | some x, some y => parseHexGo t (UInt8.ofNat (x * 16 + y) :: acc)
+    | _, _ => none
+
+def parseHex (s : String) : Option (List UInt8) :=
+  if s == "-" then some [] else parseHexGo s.toList []
+
+def sender (hasSig : String) (oob0 : String) (toks : List String) : String :=
+  match parseNatList oob0, parseTrees (toks.length + 1) toks with
+  | some o, some (body, []) =>
+    let m := marshalMsg (hasSig == "1") body o
+    let ev := sendMessage m
+    "hdr=" ++ (match m.header with | some k => toString k | none => "-")
+      ++ " idx=" ++ showNatList m.indices ++ " oob=" ++ showNatList m.oob
+      ++ " send=" ++ " ".intercalate (ev.map fun e => match e with | .sendFd d => "f" ++ toString d | .write => "W")
+  | _, _ => "error bad-input"
+
+def parseTable : Nat → List String → Option (List (List UInt8 × MsgInfo) × List String)
+  | 0, rest => some ([], rest)
+  | n + 1, raw :: decl :: idx :: rest =>
+    match parseHex raw, (if decl == "-" then some none else (parseNat? decl).map some), parseNatList idx,
+          parseTable n rest with
+    | some r, some d, some i, some (t, rest') => some ((r, ⟨d, i⟩) :: t, rest')
+    | _, _, _, _ => none
+  | _, _ => none
+
+def parseEv (s : String) : Option Ev :=
+  if s.startsWith "f" then (parseNat? (s.drop 1).toString).map Ev.fd
+  else if s.startsWith "r" then (parseHex (s.drop 1).toString).map Ev.read
+  else none
+
+def lookup (t : List (List UInt8 × MsgInfo)) (raw : List UInt8) : MsgInfo :=
+  match t.find? (fun e => e.1 == raw) with
+  | some e => e.2
+  | none => ⟨none, []⟩
+
+def noAuth : Auth Unit := ⟨fun _ _ => ((), .cont)⟩
+
+def receiver (n : String) (toks : List String) : String :=
+  match parseNat? n with
+  | none => "error bad-input"
+  | some n =>
+    match parseTable n toks with
+    | some (table, "E" :: evs) =>
+      match evs.mapM parseEv with
+      | none => "error bad-event"
+      | some es =>
+        let s0 : St Unit := { St.init true () with authenticated := true }
+        let r := recvRun noAuth (lookup table) ⟨s0, []⟩ es
+        let ds := r.2.map fun d =>
+          "D " ++ Driver.bytesToHex d.raw ++ " a=" ++ showOptList d.args ++ " b=" ++ showNatList d.queueBefore
+            ++ " q=" ++ showNatList d.queueAfter
+        " ".intercalate ds ++ " | " ++ Driver.bytesToHex r.1.st.buffer ++ " " ++ showNatList r.1.queue
+    | _ => "error bad-table"
+
+def handle (line : String) : String :=
+  match Driver.words line with
+  | "S" :: hasSig :: oob0 :: toks => sender hasSig oob0 toks
+  | "V" :: n :: toks => receiver n toks
+  | _ => "error bad-command"
+
+end DrvC20
+
+def main : IO Unit := Driver.run (fun (s : Unit) line => (s, DrvC20.handle line)) ()
